@@ -89,7 +89,7 @@ func configs() []*Config {
 		{Name: "vp8-pre510", Codec: "vp8", PreN: 256, V: []VF{d(1, 1), d(1, 1, 1), d(1)}},
 		{Name: "vp8-pre511", Codec: "vp8", PreN: 256, PreF0: 3, V: []VF{d(1, 1, 1), d(1, 1), d(1)}},
 		{Name: "vp8-pre512", Codec: "vp8", PreN: 257, V: []VF{d(1, 1), d(1, 1, 1), d(1)}},
-		{Name: "opus-pre", PreA: 58, PreALoss: 19, A: []int{1, 1, 1, 1, 1, 1}},
+		{Name: "opus-pre", PreA: 94, PreALoss: 31, A: []int{1, 1, 1, 1, 1, 1}},
 		{Name: "vp9", Codec: "vp9", V: []VF{k(0, 1, 2), d(1), d(1200, 1)}},
 		{Name: "h264", Codec: "h264", V: []VF{k(0, 2, 2), d(2), d(2, 1200, 2)}},
 	}
@@ -112,7 +112,7 @@ func configs() []*Config {
 		{Name: "vp8-jump", Codec: "vp8", V: []VF{k(0, 1), d(1), d(1), k(0, 1), d(1)}, Jump: 2},
 		{Name: "vp8+opus-dims", Codec: "vp8", V: []VF{k(0, 1), d(1), k(1, 1), d(1), k(1, 1)}, A: []int{1, 1, 1, 1, 1, 1, 1}, AOff: 5},
 		{Name: "vp8+opus-pre510", Codec: "vp8", PreN: 256, V: []VF{d(1, 1), d(1)}, A: []int{1, 1, 1}, AOff: 5},
-		{Name: "opus-pre2", PreA: 61, PreALoss: 19, A: []int{1, 1, 1, 1, 1, 1}, ASeq0: 65500},
+		{Name: "opus-pre2", PreA: 82, PreALoss: 19, A: []int{1, 1, 1, 1, 1, 1}, ASeq0: 65500},
 	}
 	return append(q, t...)
 }
@@ -497,7 +497,7 @@ func boundText(sub string) string {
 	case "sr":
 		return common + "a sender report at every position, every pair of positions (both orders of the two tracks), over " + base
 	case "preroll":
-		return "all four families after a pre-roll macro that leaves the video builder's ring at 508..512 of 513 (audio: 58..61 of 65) with a non-empty buffer"
+		return "all four families after a pre-roll macro that leaves the video builder's ring at 508..512 of 513 (audio: head 63 / tail 62 of 65) with a non-empty buffer"
 	case "sizes":
 		return "full product of payload sizes {1,2,1200}^4 (opus ^3) x ts/seq start (0 / wrapping inside the stream) on a 2-frame stream; permutations (displacement <= 2), duplications, 1-2 gaps (cached/lost), sender reports"
 	}
